@@ -4,6 +4,7 @@
 -/
 import TarsModel.Driver.Common
 import TarsModel.Model.Wire
+import TarsModel.Model.SkipIter
 
 namespace Tars.Driver.Wire
 open Tars Tars.Driver
@@ -60,6 +61,21 @@ def handle (ws : List String) : String :=
     match parseNat? tag, parseBool? req, fromHex hex with
     | some t, some rq, some data => (read ty t rq old data).getD "bad-op"
     | _, _, _ => "bad-op"
+  | ["skipend", hex] =>
+    -- Reader.SkipToStructEnd() as it is now (iterative) …
+    match fromHex hex with
+    | some data => showRes (fun _ => "-") (skipToStructEndIter (Reader.mk0 data))
+    | none => "bad-op"
+  | ["skipendrec", hex] =>
+    -- … and the recursive specification
+    match fromHex hex with
+    | some data => let r := Reader.mk0 data; showRes (fun _ => "-") (skipToStructEnd r.fuel r)
+    | none => "bad-op"
+  | ["skipstack", hex] =>
+    -- largest number of entries on the explicit skip stack
+    match fromHex hex with
+    | some data => let r := Reader.mk0 data; toString (maxStackFields r.iterFuel Consts.tyStructBegin [] r)
+    | none => "bad-op"
   | ["widen", bits] =>
     match parseNat? bits with
     | some b => toString (widenF32 b)
